@@ -4,8 +4,8 @@ import os, re, shutil
 from . import run as R
 
 # a diagnostic of the compiler itself: "[L12 C3] #1 (Error) ..." / "#1 (Fatal Error) ..." at the start of a line (source excerpts echoed
-# inside diagnostics may contain the words anywhere else), or the fault handler's "....#1 (Error) Program fault"
-MSG_RE = re.compile(r"^(\[L-?\d+ C-?\d+\] )?#\d+ \((Error|Fatal Error)\)|\.#\d+ \((Error|Fatal Error)\) Program fault", re.M)
+# inside diagnostics may contain the words anywhere else), or the signal handler's "<text>.#1 (Error) <text>" (Program fault / User break / Exceeded ... limit)
+MSG_RE = re.compile(r"^(\[L-?\d+ C-?\d+\] )?#\d+ \((Error|Fatal Error)\)|[.)]#\d+ \((Error|Fatal Error)\) (Program fault|User break|Exceeded|Unexpected signal)", re.M)
 FAULT_TEXTS = ("Program fault", "Bug:", "Compiler bug", "Assertion failed", "assertion failed", "VERIF-FAULT-SITE", "Storage allocation error")
 
 
